@@ -150,6 +150,11 @@ impl World {
     }
 
     pub fn provide_trio(&mut self, who: &Addr, trio: &Addr, assets: [&A; 3], amounts: [u128; 3]) -> Res {
+        self.provide_trio_slip(who, trio, assets, amounts, None)
+    }
+
+    /// with a slippage tolerance given as decimal atomics
+    pub fn provide_trio_slip(&mut self, who: &Addr, trio: &Addr, assets: [&A; 3], amounts: [u128; 3], slip: Option<u128>) -> Res {
         let mut funds: Vec<Coin> = vec![];
         for i in 0..3 {
             match assets[i] {
@@ -163,7 +168,7 @@ impl World {
             trio,
             &white_whale_std::pool_network::trio::ExecuteMsg::ProvideLiquidity {
                 assets: [assets[0].asset(amounts[0]), assets[1].asset(amounts[1]), assets[2].asset(amounts[2])],
-                slippage_tolerance: None,
+                slippage_tolerance: slip.map(|x| cosmwasm_std::Decimal::new(cosmwasm_std::Uint128::new(x))),
                 receiver: None,
             },
             &funds,
